@@ -166,8 +166,19 @@ class Engine:
         """pc |= t (used only to keep values concrete / prune; unknown -> False)"""
         if t is True or z3.is_true(t):
             return True
+        # term shapes (plain vs clamped slice bounds, folded lengths) depend on these answers, so they must not flip under
+        # load: first a cheap attempt on the arithmetic hypotheses only (sound: fewer hypotheses), then the full set with a
+        # budget well above what an `unsat` needs here
+        arith = [c for c in st.pc if not _mentions_seq_ops(c)]
+        if len(arith) != len(st.pc):
+            s = z3.Solver()
+            s.set('timeout', 1000)
+            s.add(*arith)
+            s.add(z3.Not(t))
+            if s.check() == z3.unsat:
+                return True
         s = z3.Solver()
-        s.set('timeout', FEAS_TIMEOUT_MS)
+        s.set('timeout', int(os.environ.get('VERIF_IMPLIED_MS', '3000')))
         s.add(*st.pc)
         s.add(z3.Not(t))
         return s.check() == z3.unsat
@@ -1717,6 +1728,41 @@ class Engine:
 
 
 SPEC_BUILTINS = {}      # filled by contracts.py (be, i2osp, rep, implies ...)
+
+
+_SEQ_MEMO = {}
+
+
+def _mentions_seq_ops(t):
+    """does the formula contain sequence operations other than Length of an uninterpreted constant?"""
+    k = t.get_id()
+    if k in _SEQ_MEMO:
+        return _SEQ_MEMO[k]
+    res = False
+    todo = [t]
+    seen = set()
+    while todo and not res:
+        x = todo.pop()
+        if x.get_id() in seen:
+            continue
+        seen.add(x.get_id())
+        if z3.is_app(x):
+            kind = x.decl().kind()
+            if kind == z3.Z3_OP_SEQ_LENGTH and z3.is_const(x.arg(0)) and x.arg(0).decl().kind() == z3.Z3_OP_UNINTERPRETED:
+                continue
+            if z3.is_seq(x) and not (z3.is_const(x) and x.decl().kind() == z3.Z3_OP_UNINTERPRETED):
+                res = True
+                break
+            if kind in (z3.Z3_OP_SEQ_LENGTH, z3.Z3_OP_SEQ_NTH, z3.Z3_OP_SEQ_INDEX, z3.Z3_OP_SEQ_CONTAINS, z3.Z3_OP_SEQ_PREFIX, z3.Z3_OP_SEQ_SUFFIX):
+                res = True
+                break
+            todo.extend(x.children())
+        elif z3.is_quantifier(x):
+            res = True
+    if len(_SEQ_MEMO) > 200000:
+        _SEQ_MEMO.clear()
+    _SEQ_MEMO[k] = res
+    return res
 
 
 class FrozenDict:
